@@ -75,7 +75,7 @@ def _decode_emit(line):
     return json.loads(txt)
 
 
-def run(module, cfg_text=None, cfg_file=None, extra_modules=None, workers=16, timeout=600, simulate=None,
+def run(module, cfg_text=None, cfg_file=None, extra_modules=None, workers=None, timeout=600, simulate=None,
         depth=None, seed=None, env=None, coverage=False, keep=False, tag=None, extra_files=None, deadlock=False,
         heap='8g', on_emit=None):
     """Run TLC on spec/<module>.tla (or a generated module given in extra_modules) and return a TlcResult.
@@ -84,6 +84,8 @@ def run(module, cfg_text=None, cfg_file=None, extra_modules=None, workers=16, ti
     extra_files:   {filename: text-or-bytes} (trace files)
     simulate:      'num=N' style string for -simulate
     """
+    if workers is None:
+        workers = int(os.environ.get('VERIF_TLC_WORKERS', '16'))
     BUILD.mkdir(exist_ok=True)
     wd = Path(tempfile.mkdtemp(prefix=f'tlc-{tag or module}-', dir=BUILD))
     try:
